@@ -116,6 +116,14 @@ def run(ctx):
             hcases.append({"id": "%s/ws/drop" % i, "query": q, "plan": p, "transport": "ws", "timeoutMs": 4000,
                            "clientEnds": "drop", "afterNext": 1})
             hcases.append({"id": "%s/ws/cancel" % i, "query": q, "plan": p, "transport": "ws", "timeoutMs": 4000, "cancelAt": 4})
+            # the server closes the connection itself while the operation runs: a second operation under the running id
+            # (4409), connection_terminate (legacy subprotocol); and the legacy subprotocol's ordinary paths
+            hcases.append({"id": "%s/ws/dupid" % i, "query": q, "plan": p, "transport": "ws", "timeoutMs": 4000, "clientEnds": "dupid"})
+            hcases.append({"id": "%s/ws/dupid-after-next" % i, "query": q, "plan": p, "transport": "ws", "timeoutMs": 4000, "clientEnds": "dupid", "afterNext": 1})
+            hcases.append({"id": "%s/gqlws" % i, "query": q, "plan": p, "transport": "ws", "timeoutMs": 4000, "subproto": "graphql-ws"})
+            hcases.append({"id": "%s/gqlws/terminate" % i, "query": q, "plan": p, "transport": "ws", "timeoutMs": 4000, "subproto": "graphql-ws", "clientEnds": "terminate"})
+            hcases.append({"id": "%s/gqlws/dupid" % i, "query": q, "plan": p, "transport": "ws", "timeoutMs": 4000, "subproto": "graphql-ws", "clientEnds": "dupid"})
+            hcases.append({"id": "%s/gqlws/stop" % i, "query": q, "plan": p, "transport": "ws", "timeoutMs": 4000, "subproto": "graphql-ws", "clientEnds": "complete", "afterNext": 1})
             # a server whose InitFunc builds the connection's context itself (not derived from the request's)
             hcases.append({"id": "%s/ws/detached-init/drop" % i, "query": q, "plan": p, "transport": "ws", "timeoutMs": 4000,
                            "clientEnds": "drop", "afterNext": 1, "detachedInit": True})
@@ -126,7 +134,8 @@ def run(ctx):
         for c, l in zip(hcases, [x for x in so.split("\n") if x]):
             r = json.loads(l)
             total += 1
-            dist["http:" + c["transport"] + (":drop" if c.get("disconnectAfter") or c.get("clientEnds") == "drop" else
+            dist["http:" + c["transport"] + (":" + c["subproto"] if c.get("subproto") else "") + (":server-closes:" + c["clientEnds"] if c.get("clientEnds") in ("dupid", "terminate") else
+                                             ":drop" if c.get("disconnectAfter") or c.get("clientEnds") == "drop" else
                                              ":client-complete" if c.get("clientEnds") else ":cancel" if c.get("cancelAt") else "")] += 1
             nontriv.add(c["id"] + cfg)
             why = []
